@@ -1,13 +1,17 @@
 #!/bin/bash
 # try_seed_wt.sh <seed dir (with patch.diff)> <check ids...> : applies the patch to a SCRATCH worktree of
 # /repo (never to /repo itself) and runs the quick checks of this /verif tree against that worktree.
+# The checks run from a private copy of this tree (own .cache, evidence, replays), so that several
+# tries - and a check on /repo itself - can run at the same time.
 V=$(cd "$(dirname "$0")/.." && pwd)
 S=$1; shift
 WT=/dev/shm/repo-try-$$
+VC=/dev/shm/verif-try-$$
 git -C /repo worktree add -q --detach $WT HEAD || exit 2
-trap 'git -C /repo worktree remove --force $WT; rm -rf $WT' EXIT
+trap 'git -C /repo worktree remove --force $WT; rm -rf $WT $VC' EXIT
+rsync -a --exclude .git --exclude seeded --exclude replays --exclude evidence $V/ $VC/ && mkdir -p $VC/evidence $VC/replays
 git -C $WT apply $S/patch.diff || { echo "patch does not apply"; exit 2; }
 for c in "$@"; do
   echo "== $(basename $S) vs $c"
-  VERIF_REPO=$WT $V/bin/vcheck $c ${TIER:-quick} 2>&1 | grep -E "VIOLATION|signature:|HARNESS|status=" | cut -c1-400 | head -12
+  VERIF_ROOT=$VC VERIF_REPO=$WT $VC/bin/vcheck $c ${TIER:-quick} 2>&1 | grep -E "VIOLATION|signature:|HARNESS|status=" | cut -c1-400 | head -12
 done
